@@ -91,7 +91,7 @@ class C04(Prop):
         'TOL_H / TOL_HD per method calibrated >= 10x above the worst ratio over 8 seeds; None = weak cell '
         '(shape, symmetry, finiteness only)',
     )
-    examples = {'quick': 150, 'thorough': 2500}
+    examples = {'quick': 250, 'thorough': 5000}
 
     def __init__(self):
         self.constants = {'FLOOR_eps_multiple': FLOOR, 'QUAD_REAL_eps_multiple': QUAD_REAL,
@@ -134,7 +134,13 @@ class C04(Prop):
             ctx.skip('point outside the certified domain of a ridge factor')
         if an.min_rho() <= 1e-7 * max(1.0, max(abs(v) for v in x)):
             ctx.skip('certified radius below 1e-7*|x|')
-        self._an = an
+        self._kc = ''
+        if 'multicomplex' in (method, case['hd_method']):
+            probe = dict(clause='envelope', method='multicomplex', ops=an.ops(),
+                         negative_real_part=an.negative_base(), tanh_arg_over_300=tanh_over_300(prog, an))
+            if known_class(probe):
+                self._kc = '|reported-class'
+                ctx.count('multicomplex case in a reported precision-loss class')
         f = mv.MVFunction(prog, wrap=wrap)
         x_in = [float(v) for v in x] if case['xform'] == 'list' else np.array(x, dtype=float)
         x_arr = np.array(x, dtype=float)
@@ -168,7 +174,8 @@ class C04(Prop):
                 if scale != 1.0:
                     ctx.count('steps scaled into the certified disc')
                 hs = np.array([np.ravel(s) for s in steps])
-                boundsH = self._compare(ctx, case, an, H, Hex, hs, method, None, len(steps), 'hessian', quad)
+                boundsH = self._compare(ctx, case, an, H, Hex, hs, method, None, len(steps), 'hessian', quad,
+                                        final_step(info, (n, n)))
                 # ---------------- Hessdiag ------------------------------------------------
                 hm, ho = case['hd_method'], case['hd_order']
                 ctx.count('hessdiag=%s|order=%d' % (hm, ho))
@@ -189,17 +196,19 @@ class C04(Prop):
                     raise Violation('shape', 'Hessdiag error_estimate shape %s' % (estD.shape,),
                                     target='hessdiag')
                 dhs = np.array([np.ravel(s) for s in dsteps])
-                boundsD = self._compare(ctx, case, an, hd, np.diag(Hex), dhs, hm, ho, k_est, 'hessdiag', quad)
+                boundsD = self._compare(ctx, case, an, hd, np.diag(Hex), dhs, hm, ho, k_est, 'hessdiag', quad,
+                                        final_step(dinfo, (n,)))
                 # ---------------- consistency ----------------------------------------------
                 for j in range(n):
                     diff = abs(H[j, j] - hd[j])
                     est = float(estH[j, j] + estD[j])
                     hmin2 = min(hs[:, j].min(), dhs[:, j].min()) ** 2
                     noisy = difference_forming(method) or difference_forming(hm)
-                    floor = FLOOR * EPS * (abs(Hex[j, j]) + ((n + 2) * an.noise(0) / hmin2 if noisy else 0.0))
+                    floor = FLOOR * EPS * (abs(Hex[j, j]) + (n + 2) * (
+                        an.cond(0, (j, j)) + (an.noise(0) / hmin2 if noisy else 0.0)))
                     excess = max(diff - floor, 0.0)
                     r = excess / est if est > 0 else (0.0 if excess == 0 else math.inf)
-                    ctx.track('cons |Hjj-hd_j|/(estH+estD)|%s|%s' % (method, hm), r,
+                    ctx.track('cons |Hjj-hd_j|/(estH+estD)|%s|%s%s' % (method, hm, self._kc), r,
                               dict(prog=mv.describe(prog), x=x, j=j, H=H[j, j], hd=hd[j], exact=Hex[j, j],
                                    estH=estH[j, j], estD=estD[j], step=case['step'], hd_step=case['hd_step'],
                                    order=ho))
@@ -225,7 +234,7 @@ class C04(Prop):
         ctx.sample(dict(prog=mv.describe(prog), x=x, method=method, wrap=wrap, step=case['step'], H=H, exact=Hex,
                         hessdiag=hd, hd_method=case['hd_method'], hd_order=case['hd_order']))
 
-    def _compare(self, ctx, case, an, lib, exact, hs, method, order, k_est, target, quad):
+    def _compare(self, ctx, case, an, lib, exact, hs, method, order, k_est, target, quad, fstep):
         """Entries of the Hessian (2-d) or of Hessdiag (1-d) against the exact values; returns bounds."""
         n = an.n
         x = case['x']
@@ -247,7 +256,13 @@ class C04(Prop):
             ex = exact[j] if diag_only else exact[j, k]
             err = abs(lv - ex)
             hh = hmin[j] * hmin[k]
-            if quad:
+            # product of the steps the library reports having used (clamped into the generated range, so a
+            # wrong record can only make the floor smaller than the worst case hmin_j * hmin_k)
+            hf = hh
+            if fstep is not None:
+                hf = fstep[j] ** 2 if diag_only else fstep[j, k] * fstep[k, j]
+                hf = min(max(hf, hh), hmax[j] * hmax[k]) if math.isfinite(hf) else hh
+            if quad and not diag_only:
                 if method == 'multicomplex':
                     unit = EPS * abs(ex)
                     name, const = 'quad_mcx', QUAD_MCX
@@ -269,10 +284,10 @@ class C04(Prop):
                 if S is None or not math.isfinite(S):
                     ctx.count('scale unavailable')
                     continue
-                floor = FLOOR * EPS * (abs(ex) + ((n + 2) * an.noise(0) / hh if dform else 0.0))
+                floor = FLOOR * EPS * (abs(ex) + (n + 2) * (an.cond(0, (j, k)) + (an.noise(0) / hf if dform else 0.0)))
                 excess = max(err - floor, 0.0)
                 ratio = excess / S if S > 0 else (0.0 if excess == 0 else math.inf)
-                ctx.track('err/S2|%s|%s' % (label, mv.kbucket(k_est)), ratio,
+                ctx.track('err/S2|%s%s' % (label, self._kc if method == 'multicomplex' else ''), ratio,
                           dict(prog=mv.describe(case['prog']), x=x, j=j, k=k, lib=lv, exact=ex, S=S,
                                step=case['step'] if target == 'hessian' else case['hd_step'],
                                wrap=case.get('wrap')))
@@ -287,7 +302,7 @@ class C04(Prop):
                 bounds[j] = b
             else:
                 bounds[j, k] = bounds[k, j] = b
-        if not quad and tol is None:
+        if not (quad and not diag_only) and tol is None:
             ctx.count('weak cell (no envelope): %s|%s' % (target, method))
         return bounds
 
@@ -308,12 +323,24 @@ class C04(Prop):
             an = mv.MVAnalysis(case['prog'], case['x'], K=4)
             key['ops'] = an.ops()
             key['negative_real_part'] = bool(an.negative_base())
-            key['tanh_arg_over_300'] = bool(max(
-                [exprs.max_abs_argument(case['prog']['pool'][r]['g'], float(f['t0']), ('tanh',))
-                 for r, f in an.factors.items()] or [0.0]) > 300)
+            key['tanh_arg_over_300'] = tanh_over_300(case['prog'], an)
         except Exception:
             pass
         return key
+
+
+def final_step(info, shape):
+    """|final_step| of the full_output record as an array of the given shape, or None."""
+    try:
+        fs = np.abs(np.asarray(info.final_step, dtype=float))
+        return fs.reshape(shape)
+    except Exception:
+        return None
+
+
+def tanh_over_300(prog, an):
+    return bool(max([exprs.max_abs_argument(prog['pool'][r]['g'], float(f['t0']), ('tanh',))
+                     for r, f in an.factors.items()] or [0.0]) > 300)
 
 
 def difference_forming(method):
